@@ -94,7 +94,7 @@ func init() {
 	fw.Register(&fw.Prop{
 		ID:       "C04",
 		Rule:     "switch-originated messages of every kind (hello with 0..2 elements and 1..3 bitmaps, error x 14 types with 0..64KiB data, experimenter error, echo with/without body, features reply, get-config reply, packet-in with 0..20 match fields of every supported kind and generated frames or no data, flow-removed, port-status, multipart replies desc/flow/aggregate/table/port-stats/queue/port-desc with 0..n records x instructions x actions incl. the standard actions a switch reports, barrier reply, TLV-table reply, bundle control replies) are written by the reference encoder and parsed through the library's parser entry point; the extracted tree must equal the recipe. distinct = hash(recipe without xid); non-trivial = a list of length >= 2 somewhere, a payload, or a masked field",
-		NumCases: func(tier string, seed uint64) int { return nCases(tier, 60000, 12000000) },
+		NumCases: func(tier string, seed uint64) int { return nCases(tier, 300000, 12000000) },
 		Gen:      func(tier string, seed uint64, i int) any { return switchRecipe(4, seed, i) },
 		NewCase:  func() any { return new(rec.Rec) },
 		Eval:     c04Eval,
